@@ -87,6 +87,14 @@ def margin(a, b, hmm_lengths):
     return 0.20 * max(hmm_lengths[a._hit_id], hmm_lengths[b._hit_id])
 
 
+@spec
+def neighbours_within_margin(results, hmm_lengths, upto):
+    """each of the first `upto` hits starts no earlier than a fifth of the longer of the two profiles before
+    the end of the hit before it ('an overlap of 20% or less is not an overlap')"""
+    return forall(range(0, upto - 1), lambda j: results[j + 1]._query_start >= results[j]._query_end - 0.20 * max(
+        hmm_lengths[results[j + 1]._hit_id], hmm_lengths[results[j]._hit_id]))
+
+
 @contract(f"{FILE}::_remove_overlapping", props=["C13"])
 class RemoveOverlapping:
     """Any number of hits (loop cut by an invariant). Input sorted by start, as the callers pass it."""
@@ -109,9 +117,19 @@ class RemoveOverlapping:
             "every-kept-hit-is-an-input": lambda non_overlapping, results:
                 forall(range(0, len(non_overlapping)),
                        lambda j: exists(range(0, len(results)), lambda m: same_hit(non_overlapping[j], results[m]))),
+            "nothing-dropped-while-neighbours-stay-within-the-margin": lambda non_overlapping, results, hmm_lengths, _i:
+                implies(neighbours_within_margin(results, hmm_lengths, _i + 1), len(non_overlapping) == _i + 1),
+            "kept-hits-are-the-inputs-in-order-while-neighbours-stay-within-the-margin":
+                lambda non_overlapping, results, hmm_lengths, _i:
+                implies(neighbours_within_margin(results, hmm_lengths, _i + 1),
+                        forall(range(0, _i + 1), lambda j: same_hit(non_overlapping[j], results[j]))),
         })}
 
     ensures = {
+        "hits-overlapping-by-at-most-a-fifth-of-the-longer-profile-are-all-kept": lambda results, hmm_lengths, result:
+            implies(neighbours_within_margin(results, hmm_lengths, len(results)),
+                    len(result) == len(results)
+                    and forall(range(0, len(results)), lambda j: same_hit(result[j], results[j]))),
         "nonempty-sorted-subset-of-input": lambda results, result:
             len(result) >= 1
             and forall(range(0, len(result) - 1), lambda j: result[j]._query_start <= result[j + 1]._query_start)
